@@ -116,7 +116,13 @@ class Project(object):
         else:
             if name in self.dyn_modules or not is_source:
                 if name not in sys.modules:
-                    __import__(name)
+                    # the file was located on (source roots + sys.path): import it from there
+                    path = sys.path[:]
+                    sys.path[:] = self.sources + [r for r in path if r not in self.sources]
+                    try:
+                        __import__(name)
+                    finally:
+                        sys.path[:] = path
                 module = ImportedModule(sys.modules[name])
             else:
                 module = SourceModule(self, name, filename)
